@@ -52,6 +52,7 @@ TARGET_CONFIGS = [
     ({'rule': 'meek-prf'}, (4, None, 2)),
     ({'rule': 'qpq'}, (3, 2, None)),
 ]
+EQ_BLT = '4 2 [tie 2 4 1 3] 3 1=2 3 0 2 2=3=4 1 0 2 3 0 1 4=1 2 0 2 1 0 1 2 4 0 0 "c1" "c2" "c3" "c4" "t"'
 BLTS = ['4 2 [tie 3 1 2 4] 3 1 2 0 2 2 3 0 2 3 0 1 4 1 0 1 2 1 4 0 0 "c1" "c2" "c3" "c4" "t"',
         '3 1 2 1 0 2 2 1 0 1 3 2 0 0 "c1" "c2" "c3" "t"',
         '5 3 [tie 5 4 3 2 1] 4 1 2 3 0 3 2 1 0 2 3 4 0 2 4 5 1 0 1 5 0 1 1 0 0 "c1" "c2" "c3" "c4" "c5" "t"']
